@@ -146,7 +146,31 @@ def run(ctx: Context) -> None:
                             s = flow.resolve(ll.args[0])
                             if isinstance(s, ast.Call) and dotted(s.func) == 'set':
                                 ok_mixed = True
-            ctx.check('R05.1', ok_empty, "an empty request is refused", fi, fi.node, construct='raise when len(indexes) == 0')
+            from .common import guards as _g05
+
+            def alternatives(e):
+                """[(value, guards)] of the plain assignments that can reach the name e (the expression itself when it is not a name)."""
+                if isinstance(e, ast.Name):
+                    ds_ = flow.defs_of(e)
+                    if ds_ and all(d.kind == 'assign' and d.value is not None and d.stmt is not None for d in ds_):
+                        return [(d.value, _g05(fi, d.stmt)) for d in ds_]
+                return [(e, [])]
+
+            def is_empty_branch(g) -> bool:
+                return (f"len({idx_p}) == 0", True) in g or (idx_p, False) in g or (f"len({idx_p}) > 0", False) in g
+            # an empty request (every point missed) selects nothing; it is not an error
+            empties = [n for n in walk_no_nested(fi.node) if isinstance(n, ast.Assign) and isinstance(n.value, ast.Call)
+                       and callee(ctx, fi, n.value) in ('numpy.empty', 'numpy.zeros') and is_empty_branch(_g05(fi, n))]
+            ok_empty_sel = False
+            if len(empties) == 1 and not ok_empty:
+                shp = flow.resolve(empties[0].value.args[0]) if empties[0].value.args else None
+                dt = kwarg(empties[0].value, 'dtype')
+                ok_empty_sel = (isinstance(shp, ast.Tuple) and len(shp.elts) == 2 and const_value(shp.elts[0], None) == 0
+                                and isinstance(shp.elts[1], ast.Call) and dotted(shp.elts[1].func) == 'len'
+                                and dt is not None and norm_text(dt) in ('int', 'numpy.int64', 'numpy.intp', 'numpy.int_'))
+            ctx.check('R05.1', ok_empty_sel, "an empty request gives an empty selection: zero rows and one integer column per dimension "
+                      "(extract_points passes on the points that hit the model, and under 'drop' / 'fill' there may be none)", fi,
+                      empties[0] if empties else fi.node, construct=f"empty request: {norm_text(empties[0]) if empties else ('refused with an error' if ok_empty else 'not handled')}")
             ctx.check('R05.1', ok_mixed, "indexes of more than one grid kind are refused", fi, fi.node, construct='raise when len(set(grid_kinds)) > 1')
             dsets = [c for c in calls_in(fi) if (dotted(c.func) or '').endswith('Dataset')]
             ctx.need('R05.1', len(dsets) == 1 and dsets[0].args, f"expected one xarray.Dataset(...) construction", fi)
@@ -177,16 +201,32 @@ def run(ctx: Context) -> None:
                               and col.slice.elts[0].upper is None and col.slice.elts[0].step is None
                               and isinstance(col.slice.elts[1], ast.Name) and col.slice.elts[1].id == ivar)
                     ok_pair = ok_key and ok_col and ok_dimname
-                    # the sequence is grid_dimensions[kind of the first index]
-                    if isinstance(seq, ast.Subscript) and flow.canon(seq.value) == ('attr', ('param', 'self'), 'grid_dimensions'):
-                        ok_dims = True
-                    # the index array: numpy.array(<tuples from unpack_index in request order>)
+                    # the sequence is grid_dimensions[kind of the first index] (of the default kind for an empty request)
+                    seqs = alternatives(it.args[0])
+                    ok_dims = bool(seqs)
+                    for sv, sg in seqs:
+                        sv = flow.resolve(sv)
+                        good = isinstance(sv, ast.Subscript) and flow.canon(sv.value) == ('attr', ('param', 'self'), 'grid_dimensions')
+                        if good:
+                            kinds = alternatives(sv.slice)
+                            for kv, kg in kinds:
+                                kv = flow.resolve(kv)
+                                if is_empty_branch(sg + kg):
+                                    good = good and norm_text(kv) == 'self.default_grid_kind'
+                                else:
+                                    good = good and isinstance(kv, ast.Subscript) and const_value(kv.slice, None) == 0
+                        ok_dims = ok_dims and good
+                    # the index array: numpy.array(<tuples from unpack_index in request order>), or the empty selection
                     if ok_col:
-                        arr = flow.resolve(col.value)
-                        if isinstance(arr, ast.Call) and callee(ctx, fi, arr) in ('numpy.array', 'numpy.asarray') and arr.args:
-                            src = arr.args[0]
-                            ok_arr = flow.reaches(src, lambda n: isinstance(n, ast.Call) and isinstance(n.func, ast.Attribute)
-                                                  and n.func.attr == 'unpack_index')
+                        arrs = alternatives(col.value)
+                        ok_arr = bool(arrs)
+                        for av, ag in arrs:
+                            av = flow.resolve(av)
+                            if is_empty_branch(ag):
+                                ok_arr = ok_arr and any(av is e_.value for e_ in empties)
+                            else:
+                                ok_arr = ok_arr and isinstance(av, ast.Call) and callee(ctx, fi, av) in ('numpy.array', 'numpy.asarray') and bool(av.args) \
+                                    and flow.reaches(av.args[0], lambda n: isinstance(n, ast.Call) and isinstance(n.func, ast.Attribute) and n.func.attr == 'unpack_index')
             ctx.check('R05.1', ok_pair, "selector[dimension i] = (index dimension, index_array[:, i]) from one enumerate", fi, dsets[0],
                       construct=f"selector = {detail[:130]}")
             ctx.check('R05.1', ok_dims, "the enumerated sequence is self.grid_dimensions[kind]", fi, dsets[0], construct='enumerate(self.grid_dimensions[kind])')
@@ -224,10 +264,11 @@ def run(ctx: Context) -> None:
             kinds_ok = False
             for n in walk_no_nested(fi.node):
                 if isinstance(n, ast.Assign) and isinstance(n.value, ast.Subscript) \
-                        and flow.canon(n.value.value) == ('attr', ('param', 'self'), 'grid_dimensions'):
-                    k = flow.resolve(n.value.slice)
-                    if isinstance(k, ast.Subscript) and const_value(k.slice, None) == 0:
-                        kinds_ok = True
+                        and flow.canon(n.value.value) == ('attr', ('param', 'self'), 'grid_dimensions') and not is_empty_branch(_g05(fi, n)):
+                    for kv, kg in alternatives(n.value.slice):
+                        k = flow.resolve(kv)
+                        if isinstance(k, ast.Subscript) and const_value(k.slice, None) == 0 and not is_empty_branch(kg):
+                            kinds_ok = True
             ctx.check('R05.1', kinds_ok, "dimensions come from the grid kind of the requested indexes", fi, fi.node,
                       construct='dimensions = self.grid_dimensions[grid_kinds[0]]')
 
@@ -536,6 +577,9 @@ VARIANTS = [
     V('C05', 'sel-for-isel', _B, "        return dataset.isel(selector)", "        return dataset.sel(selector)", 'R05.1'),
     V('C05', 'column-reversed', _B, "            dimension: (index_dimension, index_array[:, i])", "            dimension: (index_dimension, index_array[:, -1 - i])", 'R05.1'),
     V('C05', 'dims-reversed', _B, "            for i, dimension in enumerate(dimensions)\n        })", "            for i, dimension in enumerate(reversed(dimensions))\n        })", 'R05.1'),
+    V('C05', 'empty-request-refused', _B, "            grid_kind = self.default_grid_kind\n            dimensions = self.grid_dimensions[grid_kind]\n            index_array = numpy.empty((0, len(dimensions)), dtype=int)\n", "            raise ValueError(\"Need at least one index to select\")\n", 'R05.1'),
+    V('C05', 'empty-request-one-phantom-row', _B, "            index_array = numpy.empty((0, len(dimensions)), dtype=int)", "            index_array = numpy.zeros((1, len(dimensions)), dtype=int)", 'R05.1'),
+    V('C05', 'empty-request-float-indexes', _B, "            index_array = numpy.empty((0, len(dimensions)), dtype=int)", "            index_array = numpy.empty((0, len(dimensions)))", 'R05.1'),
     V('C05', 'negative-index-wraps', _B, "        if (index_array < 0).any():\n            raise ValueError(\"Indexes must not be negative\")\n", "", ('R05.1',)),
     V('C05', 'negative-check-on-other-array', _B, "        if (index_array < 0).any():", "        if (numpy.array(grid_kinds == 0) < 0).any():", ('R05.1',)),
     V('C05', 'benign-negative-check-min-form', _B, "        if (index_array < 0).any():", "        if index_array.min() < 0:", None),
